@@ -158,13 +158,6 @@ def abtest(ctx) -> None:
     ctx.check(kws == {'registry': 'registry', 'project': 'self.variant.project', 'release': 'self.variant.release', 'generation': 'self.variant.generation'}, 'C17.abtest', inst, 'a slot serves the instance of its own variant', call or inst.node, key='slot:instance')
     init = prog.func(f'{ci.ref}.__init__')
     text = core.src(init.node)
-    ctx.check('combined = sum(targets)' in text and 't / combined' in text and 'zip(variants, targets)' in text, 'C17.abtest', init, 'targets are normalised by their combined weight, paired with their variants in order', init.node, key='init:normalise')
-    # the shares are the exact quotients: nothing rounds, truncates or quantises a target (three equal shares rounded to
-    # 0.3333 sum to 0.9999 - request 10000 finds no eligible slot; 1:2:4 rounded drifts more than a request off its share)
-    lossy = [c for c in core.walk_local(init.node) if isinstance(c, ast.Call) and (core.call_name(c) or '').split('.')[-1] in ('round', 'int', 'floor', 'ceil', 'trunc', 'quantize', 'Decimal', 'format')]
-    slots = [c for c in core.walk_local(init.node) if isinstance(c, ast.Call) and core.src(c.func) == 'self.Slot']
-    exact = all(len(c.args) == 2 and isinstance(c.args[1], ast.BinOp) and isinstance(c.args[1].op, ast.Div) for c in slots)
-    ctx.check(not lossy and bool(slots) and exact, 'C17.abtest', init, f'every slot gets the exact quotient target / combined (lossy conversions: {[core.src(c)[:30] for c in lossy]})', lossy[0] if lossy else init.node, key='init:exact-share')
     # the arithmetic of the omitted targets, read off the normal form of __init__ (temporaries, sort spelling, key function
     # spelling and the counting idiom do not matter)
     nf = init.normal().node
@@ -184,6 +177,31 @@ def abtest(ctx) -> None:
     def is_target_of(e, var: str) -> bool:
         return isinstance(e, ast.Attribute) and e.attr == 'target' and isinstance(e.value, ast.Name) and e.value.id == var
 
+    # shares: Slot(v, t / combined) for (v, t) in zip(variants, targets) - or the quotients named first:
+    # Slot(v, s) for (v, s) in zip(variants, [t / combined for t in targets]); combined = sum(targets)
+    lossy = [c for c in core.walk_local(init.node) if isinstance(c, ast.Call) and (core.call_name(c) or '').split('.')[-1] in ('round', 'int', 'floor', 'ceil', 'trunc', 'quantize', 'Decimal', 'format')]
+    slot_calls = [c for c in ast.walk(nf) if isinstance(c, ast.Call) and core.src(c.func) == 'self.Slot']
+    paired = exact = bool(slot_calls)
+
+    def quotient_of(e, tvar: str, tseq) -> bool:
+        return isinstance(e, ast.BinOp) and isinstance(e.op, ast.Div) and isinstance(e.left, ast.Name) and e.left.id == tvar and core.src(one(e.right)) == f'sum({core.src(tseq)})'
+
+    for c in slot_calls:
+        comp = next((a for a in core.ancestors(c) if isinstance(a, (ast.GeneratorExp, ast.ListComp))), None)
+        g = comp.generators[0] if comp is not None and len(comp.generators) == 1 and not comp.generators[0].ifs else None
+        z = g.iter if g is not None and isinstance(g.iter, ast.Call) and core.call_name(g.iter) == 'zip' and len(g.iter.args) == 2 and isinstance(g.target, ast.Tuple) and len(g.target.elts) == 2 else None
+        if z is None or len(c.args) != 2 or c.keywords:
+            paired = exact = False
+            continue
+        v, t = (core.src(e) for e in g.target.elts)
+        paired = paired and core.src(z.args[0]) == vname and core.src(c.args[0]) == v
+        second = one(z.args[1])
+        if isinstance(second, ast.ListComp) and len(second.generators) == 1 and not second.generators[0].ifs and isinstance(second.generators[0].target, ast.Name):
+            exact = exact and core.src(c.args[1]) == t and quotient_of(second.elt, second.generators[0].target.id, second.generators[0].iter)
+        else:
+            exact = exact and quotient_of(c.args[1], t, z.args[1])
+    ctx.check(paired and exact, 'C17.abtest', init, 'targets are normalised by their combined weight, paired with their variants in order', init.node, key='init:normalise')
+    ctx.check(not lossy and exact, 'C17.abtest', init, f'every slot gets the exact quotient target / combined (lossy conversions: {[core.src(c)[:30] for c in lossy]})', lossy[0] if lossy else init.node, key='init:exact-share')
     srt = next((c for c in ast.walk(nf) if isinstance(c, ast.Call) and core.call_name(c) == 'sorted'), None)
     keyf = next((k.value for k in srt.keywords if k.arg == 'key'), None) if srt is not None else None
     oks = srt is not None and any(k.arg == 'reverse' and core.is_const(k.value, True) for k in srt.keywords) and isinstance(keyf, ast.Lambda) and len(keyf.args.args) == 1 and is_target_of(keyf.body, keyf.args.args[0].arg)
